@@ -732,11 +732,12 @@ pub fn analyze(sc: &StreamScenario, out: &StreamOutcome) -> Analysis {
         }
     }
     if after_rejection && vio_at_rejection < vio.len() {
-        // after a correct rejection only the gate, the outgoing side and panics stay accountable
+        // after a correct rejection only the gate, the outgoing side (incl. keep-alive replies: the
+        // history of received packets goes on) and panics stay accountable
         let tail: Vec<Violation> = vio
             .split_off(vio_at_rejection)
             .into_iter()
-            .filter(|x| x.clause.starts_with("gate.") || x.clause == "wire.non_pong_during_read" || x.clause == "panic")
+            .filter(|x| x.clause.starts_with("gate.") || x.clause == "wire.non_pong_during_read" || x.clause == "panic" || x.clause == "pong.missing_at_return" || x.clause == "pong.unjustified")
             .collect();
         vio.extend(tail);
     }
